@@ -130,6 +130,8 @@ fn text_call(entry: &str, s: &str) -> J {
         "encode_json_str_to_plutus_datum/0" => t!(csl::encode_json_str_to_plutus_datum(s, csl::PlutusDatumSchema::BasicConversions)),
         "encode_json_str_to_plutus_datum/1" => t!(csl::encode_json_str_to_plutus_datum(s, csl::PlutusDatumSchema::DetailedSchema)),
         "encode_json_str_to_native_script" => t!(csl::encode_json_str_to_native_script(s, "", csl::ScriptSchema::Node)),
+        "encode_json_str_to_native_script/wallet" => t!(csl::encode_json_str_to_native_script(s, "", csl::ScriptSchema::Wallet)),
+        "encode_json_str_to_native_script/wallet_self" => t!(csl::encode_json_str_to_native_script(s, &"cd".repeat(64), csl::ScriptSchema::Wallet)),
         "URL::new" => t!(csl::URL::new(s.to_string())),
         "DNSRecordAorAAAA::new" => t!(csl::DNSRecordAorAAAA::new(s.to_string())),
         _ => json!({"err": "harness: unknown entry"}),
@@ -185,8 +187,51 @@ fn valid_forms() -> Vec<(&'static str, String)> {
         ("encode_json_str_to_metadatum/2", "{\"map\":[{\"k\":{\"int\":-9223372036854775808},\"v\":{\"bytes\":\"00ff\"}}]}".to_string()),
         ("encode_json_str_to_plutus_datum/0", "{\"5\":[1,\"0xabcd\",{\"x\":-7}]}".to_string()), ("encode_json_str_to_plutus_datum/1", "{\"constructor\":0,\"fields\":[{\"int\":-18446744073709551616},{\"bytes\":\"00\"},{\"list\":[]},{\"map\":[]}]}".to_string()),
         ("encode_json_str_to_native_script", "{\"type\":\"all\",\"scripts\":[{\"type\":\"sig\",\"keyHash\":\"".to_string() + &"ab".repeat(28) + "\"},{\"type\":\"after\",\"slot\":5}]}"),
+        ("encode_json_str_to_native_script/wallet", "{\"cosigners\":{\"cosigner#0\":\"".to_string() + &"ab".repeat(64) + "\",\"cosigner#1\":\"" + &"ef".repeat(64) + "\"},\"template\":{\"all\":[\"cosigner#0\",{\"any\":[{\"active_from\":5},{\"active_until\":10},\"cosigner#1\"]},{\"some\":{\"at_least\":1,\"from\":[\"cosigner#0\",{\"active_from\":7}]}}]}}"),
+        ("encode_json_str_to_native_script/wallet_self", "{\"cosigners\":{\"cosigner#0\":\"self\"},\"template\":{\"some\":{\"at_least\":2,\"from\":[\"cosigner#0\",{\"all\":[]},{\"active_until\":1}]}}}".to_string()),
         ("URL::new", "https://example.com".to_string()), ("DNSRecordAorAAAA::new", "relay.example.com".to_string()),
     ]
+}
+/// structure-aware variants of a JSON document: at every node the value is replaced by a value of every other JSON kind (and by boundary
+/// numbers), every member of every object is dropped in turn, renamed and doubled, every array is emptied / loses its first / last element
+fn json_mutants(s: &str) -> Vec<String> {
+    let doc: J = match serde_json::from_str(s) { Ok(d) => d, Err(_) => return vec![] };
+    let mut paths: Vec<Vec<String>> = vec![];
+    fn walk(v: &J, path: &mut Vec<String>, out: &mut Vec<Vec<String>>) {
+        out.push(path.clone());
+        match v {
+            J::Object(m) => for (k, x) in m.iter() { path.push(k.clone()); walk(x, path, out); path.pop(); },
+            J::Array(a) => for (i, x) in a.iter().enumerate() { path.push(i.to_string()); walk(x, path, out); path.pop(); },
+            _ => {}
+        }
+    }
+    walk(&doc, &mut vec![], &mut paths);
+    fn at<'a>(v: &'a mut J, path: &[String]) -> &'a mut J { let mut cur = v; for p in path { cur = if cur.is_array() { let i: usize = p.parse().unwrap(); &mut cur[i] } else { &mut cur[p.as_str()] }; } cur }
+    let repl: Vec<J> = vec![J::Null, json!(true), json!(0), json!(-1), json!(1.5), json!(u64::MAX), json!(i64::MIN), json!(""), json!("x"), json!("0x"), json!([]), json!({}), json!([[]]), json!({"": {}}),
+                            serde_json::from_str("18446744073709551616").unwrap_or(J::Null), serde_json::from_str("-9223372036854775809").unwrap_or(J::Null)];
+    let mut out = vec![];
+    for p in paths.iter().take(60) {
+        for r in repl.iter() { let mut d = doc.clone(); *at(&mut d, p) = r.clone(); out.push(d.to_string()); }
+        let mut d = doc.clone();
+        let node = at(&mut d, p).clone();
+        match node {
+            J::Object(m) => {
+                for k in m.keys() {
+                    let mut m2 = m.clone(); m2.remove(k); let mut d2 = doc.clone(); *at(&mut d2, p) = J::Object(m2); out.push(d2.to_string());
+                    let mut m3 = m.clone(); let v = m3.remove(k).unwrap(); m3.insert(format!("{}_", k), v); let mut d3 = doc.clone(); *at(&mut d3, p) = J::Object(m3); out.push(d3.to_string());
+                }
+                // a member name written twice (serde_json keeps the last one, a hand-written visitor may not)
+                if let Some((k, v)) = m.iter().next() { let inner = J::Object(m.clone()).to_string(); let dup = format!("{{{}:{},{}", serde_json::to_string(k).unwrap(), v, &inner[1..]);
+                    let mut d4 = doc.clone(); *at(&mut d4, p) = json!("@@DUP@@"); out.push(d4.to_string().replace("\"@@DUP@@\"", &dup)); }
+            }
+            J::Array(a) => {
+                if !a.is_empty() { let mut d2 = doc.clone(); *at(&mut d2, p) = J::Array(a[1..].to_vec()); out.push(d2.to_string()); let mut d3 = doc.clone(); *at(&mut d3, p) = J::Array(a[..a.len() - 1].to_vec()); out.push(d3.to_string());
+                    let mut a2 = a.clone(); a2.push(a[0].clone()); let mut d4 = doc.clone(); *at(&mut d4, p) = J::Array(a2); out.push(d4.to_string()); }
+            }
+            _ => {}
+        }
+    }
+    out
 }
 fn text_mutants(s: &str, rng: &mut Rng) -> Vec<String> {
     let mut v = vec![String::new(), s[..s.len().min(1)].to_string(), s[..s.len() - 1].to_string(), format!("{}0", s), format!(" {}", s), format!("{}\n", s), s.to_uppercase(), s.replace('1', "l"),
@@ -194,6 +239,7 @@ fn text_mutants(s: &str, rng: &mut Rng) -> Vec<String> {
                      "null".to_string(), "[]".to_string(), "{}".to_string(), "1e400".to_string(), "-0".to_string(), "{\"int\":1.5}".to_string(), "{\"a\":null}".to_string(), "[[[[[[[[[[[[[[[[[[[[[[[[[[[[[[".to_string(),
                      "-9223372036854775808".to_string(), "9223372036854775808".to_string(), "-9223372036854775809".to_string(), "{\"map\":[{\"k\":{\"int\":1}}]}".to_string(), "{\"constructor\":-1,\"fields\":[]}".to_string(),
                      "{\"bytes\":\"0g\"}".to_string(), "{\"bytes\":\"abc\"}".to_string(), "\"0x0g\"".to_string(), "{\"int\":-9223372036854775808}".to_string(), "-9223372036854775808e0".to_string(), "x".repeat(200)];
+    v.extend(json_mutants(s));
     let cs: Vec<char> = s.chars().collect();
     for _ in 0..12 {
         if cs.is_empty() { break; }
